@@ -5,7 +5,7 @@
    real balancer / stableswap / concentrated pools by the correspondence run). *)
 From Coq Require Import ZArith List Bool Lia.
 Import ListNotations.
-From Osmo Require Import Base.DecModel C05.Model C05.Proofs C05.Instance.
+From Osmo Require Import Base.DecModel Gen.C05_consts C05.Model C05.Proofs C05.Instance.
 Open Scope Z_scope.
 
 (* ------------------------------------------------------------------ multi-hop = composition (exact-in) *)
@@ -28,7 +28,7 @@ Theorem C05_route_in_compose : forall P s sender h rest dIn amt minOut, rest <> 
   skim_ok P s (dIn :: map snd (h :: rest)) = true -> skim_ok P s [dIn; snd h] = true ->
   skim_ok P s (snd h :: map snd rest) = true ->
   handle P s (MSwapIn sender (h :: rest) dIn amt minOut) =
-  match handle P s (MSwapIn sender [h] dIn amt 1) with
+  match handle P s (MSwapIn sender [h] dIn amt hop_min_out) with
   | Err e => Err e
   | Ok (s1, out) => handle P s1 (MSwapIn sender rest (snd h) out minOut)
   end.
@@ -116,9 +116,9 @@ Theorem C05_split_out_eq_sum : forall P s sender legs dOut maxIn s' total,
 Proof. exact split_out_eq_sum. Qed.
 Print Assumptions C05_split_out_eq_sum.
 
-(* a leg (internal minimum 0) is the same as a routed swap with minimum 1 *)
+(* a leg (internal minimum split_leg_min = 0) is the same as a routed swap with the smallest minimum a message may carry *)
 Theorem C05_split_leg_is_routed_swap : forall P route s sender dIn amt,
-  route_exact_in P s sender route dIn amt 0 = route_exact_in P s sender route dIn amt 1.
+  route_exact_in P s sender route dIn amt split_leg_min = route_exact_in P s sender route dIn amt 1.
 Proof. exact route_in_min01. Qed.
 Print Assumptions C05_split_leg_is_routed_swap.
 
